@@ -17,7 +17,7 @@ PLAN_ENTRY = {'stages': [
 
 CLAIM = {
     'text': 'TLC enumerates every multiset of up to 3 points of a 3x3 (thorough 4x4) lattice and up to 2 points of a 2x2x2 (3x3x3) lattice '
-            '- duplicates and axis ties included - as full k-d trees and as index-remapped partial trees over proper index subsets in '
+            '- duplicates and axis ties included - as full k-d trees and as index-remapped partial trees over index subsets (proper ones and the complete index set in arbitrary order) in '
             'descending order, against a half-lattice query window, every k up to n+1 and five half-lattice radii, and judges every '
             'nearest_one / nearest(k) / within answer by an exhaustive integer scan (arg-min set, the k smallest distances as a multiset, '
             'open ball included and closed ball not exceeded, true distance and original index for every pair, no repeats, len). The greedy '
@@ -81,7 +81,8 @@ def _kd(rnd, pts, dim, part, nq, sc=0, cls=''):
     n = len(pts)
     sub = []
     if part:
-        m = rnd.randint(max(1, n // 3), max(1, n - 1))
+        # a proper subset, or (one time in three) every index in arbitrary order
+        m = n if rnd.random() < 0.34 else rnd.randint(max(1, n // 3), max(1, n - 1))
         sub = rnd.sample(range(n), m)
     nw = len(sub) if part else n
     span = max(max(p) for p in pts) + 1
